@@ -125,3 +125,39 @@ def c16_lexical(repo, tier):
     obs.append(ob("frame/only-the-counter-method-writes-the-counters(GeckoAsyncUdpProtocol)", not writers, "", {"writers": writers}))
     return {"name": "lexical", "backend": "ast-dominance", "obligations": obs, "functions": funcs,
             "samples": [{"obligation": o["name"], "verdict": o["status"]} for o in obs[:2]]}
+
+
+def no_suspension(func):
+    """await expressions in func (lexically)"""
+    return [(n.lineno, ast.unparse(n)[:60]) for n in ast.walk(func) if isinstance(n, (ast.Await, ast.AsyncFor, ast.AsyncWith))]
+
+
+def c05_lexical(repo, tier):
+    obs = []
+    funcs = {}
+    tree, src, path = parse(repo, "driver/protocol/statusblock.py")
+    f = find_func(tree, "GeckoAsyncPartialStatusBlockProtocolHandler.async_handle")
+    if f is None:
+        obs.append({"name": "lexical-atomic/async_handle-exists", "status": "unknown", "detail": "function not found"})
+    else:
+        funcs["geckolib.driver.protocol.statusblock:GeckoAsyncPartialStatusBlockProtocolHandler.async_handle"] = seg_hash(src, f)
+        aw = no_suspension(f)
+        obs.append(ob("lexical-atomic/async_handle-decodes-without-suspension-point", not aw,
+                      "an await between the ack and the decode lets another message overwrite the buffer", {"awaits": aw}))
+    tree2, src2, path2 = parse(repo, "async_spa.py")
+    g = find_func(tree2, "GeckoAsyncSpa._async_on_partial_status_update")
+    if g is None:
+        obs.append({"name": "lexical-atomic/_async_on_partial_status_update-exists", "status": "unknown", "detail": "function not found"})
+    else:
+        funcs["geckolib.async_spa:GeckoAsyncSpa._async_on_partial_status_update"] = seg_hash(src2, g)
+        aw = no_suspension(g)
+        obs.append(ob("lexical-atomic/records-applied-without-suspension-point", not aw, "", {"awaits": aw}))
+    tree3, src3, _ = parse(repo, "driver/udp_protocol_handler.py")
+    c = find_func(tree3, "GeckoUdpProtocolHandler.consume")
+    if c is not None:
+        # between pop() and async_handled() only the two handler awaits may occur
+        body_src = ast.unparse(c)
+        ok = "await self.async_handle(data, sender)" in body_src and "await self.async_handled(sender)" in body_src
+        obs.append(ob("lexical/consume-hands-each-datagram-to-handle-then-handled", ok, "", None))
+    return {"name": "lexical", "backend": "ast-dominance", "obligations": obs, "functions": funcs,
+            "samples": [{"obligation": o["name"], "verdict": o["status"]} for o in obs[:2]]}
